@@ -92,6 +92,22 @@ def body(run):
     failing, nt = run.corr('bands', 'Corr.CheckC15', cases, shard=500)
     for k in failing[:5]:
         run.add_break('correspondence-break', '_match_pair_bands differs from Bands.Match.match_pair_bands', metas[k])
+    # ---- several source files in one command-line invocation: the reader built for each file has the bands of a reader built for that file alone
+    from harness import impl_multi as im
+    mrng = run.rng('multi')
+    files = im.make_files(run.work, mrng)
+    for oi, order in enumerate([('fine3', 'fine4'), ('fine4', 'fine3'), ('fine3', 'coarse4', 'fine4')][:run.scale(3, 3)]):
+        od = run.work / f'multi_out{oi}'
+        od.mkdir()
+        code, outp, seen = im.cli_fuse([files[k_] for k_ in order], files['ref'], od)
+        want = [im.alone(files[k_], files['ref']) for k_ in order]
+        run.count_case(('cli-multi', oi), True, dict(order=list(order)) if oi == 0 else None)
+        got = [{k2: r_[k2] for k2 in ('src', 'src_bands', 'ref_bands')} for r_ in seen]
+        exp = [{k2: r_[k2] for k2 in ('src', 'src_bands', 'ref_bands')} for r_ in want]
+        if code != 0 or got != exp:
+            run.add_violation('band matching unsound: a reader constructed by the command line for one of several source files has other bands than a reader for that file alone',
+                              dict(files=list(order), reference_bands=5), expected=exp, observed=dict(exit_code=code, readers=got, output=outp[-300:] if code else ''),
+                              signature=dict(kind='bands-cli-multi'))
     run.cov['rule'] = ('seeded metadata configurations on duck-typed datasets: 1..6 x 1..8 bands, wavelengths present / partial / absent / at the '
                        '10 % edge / exact ties / permuted copies, RGB / BGR colour interpretation, alpha and _MASK bands, user subsets, '
                        'out-of-range and duplicate selections, force; 10 % also through real files; thorough adds every pattern of <= 3 x 3 bands '
